@@ -51,6 +51,8 @@ class Ctx:
         self.exhaustive: dict = {}
         self.t0 = time.time()
         self.replaying = False
+        self.ambient = None        # option names the property does not depend on (module attribute AMBIENT)
+        self._amb_n = 0
 
     # ---- budget helpers -------------------------------------------------------------------
     def scale(self, quick: int, thorough: int) -> int:
@@ -128,13 +130,30 @@ class Ctx:
         """Execute one case under the watchdog.  An exception escaping the judge means the
         library raised where the harness (silent on the unchanged tree) expects no raise."""
         import traceback
+        from rv import util
         self.current_case = case
+        amb = None
+        if self.ambient and isinstance(case, dict):
+            if '_amb' in case:
+                amb = case['_amb']
+            else:
+                self._amb_n += 1
+                if self._amb_n % 4 == 0:
+                    amb = {k: AMBIENT_VALUES[k] for k in self.ambient}
+                    case['_amb'] = amb
+        util.AMBIENT = amb or {}
+        before = util.get_options()
         try:
             with self.watch(case):
                 judge(self, case)
         except Exception as e:  # noqa: BLE001
             self.mismatch(f'harness|unexpected-exception|{type(e).__name__}', case,
                           traceback.format_exc()[-500:])
+        finally:
+            util.AMBIENT = {}
+            if amb:
+                util.set_options(before)
+                self.ops['ambient:' + '+'.join(sorted(amb))] += 1
 
     # ---- serialisation --------------------------------------------------------------------
     def summary(self) -> dict:
@@ -158,6 +177,9 @@ class Ctx:
             'exhaustive': self.exhaustive,
             'wall_s': round(time.time() - self.t0, 3),
         }
+
+
+AMBIENT_VALUES = {'bytealigned': True, 'mxfp_overflow': 'overflow'}
 
 
 def jsonable(x):
